@@ -6,6 +6,7 @@ import PanderaModel.Props.C01
 #print axioms Pandera.C01.K_C01_strVacuous_witness
 #print axioms Pandera.C01.validate_returns_input
 #print axioms Pandera.C01.pandas_builtin_eq_docPred
+#print axioms Pandera.C01.series_accepts_iff_partial
 #print axioms Pandera.C01.uniqueValuesEq_vacuous
 #print axioms Pandera.C01.uniqueValuesEq_empty_column
 #print axioms Pandera.C01.uniqueValuesEq_ignores_nulls
